@@ -89,6 +89,7 @@ fn cmd_labels(max: u32) {
     println!("{{\"cmd\":\"labels\",\"bound\":\"n in 0..={max} for decimal/roman; all ordered pairs of 60 label definitions (6 styles x 5 prefixes x 2 starts) at pages 0 and 3\",\"evaluated\":{},\"disagreements\":[{}]}}", evaluated, bad.join(","));
 }
 
+fn annexd_free(_enc: &str, cp: u32) -> bool { cp < 0x20 || (0x7F..=0x9F).contains(&cp) || cp == 0xA0 || cp == 0xAD }
 fn cmd_enc_tables() {
     // C25 Ec: TextEncoding::{encode_strict, encode, decode} on every one-character string / one-byte slice
     let mut evaluated = 0u64; let mut bad: Vec<String> = vec![]; let mut known: Vec<String> = vec![]; let mut silent_n = 0u64;
@@ -138,6 +139,57 @@ fn cmd_enc_tables() {
         if e != vec![b] { pdfdoc_n += 1; if pdfdoc_bad.len() < 3 { pdfdoc_bad.push(format!("{{\"char\":{u},\"fn\":\"encode\",\"want\":{b},\"got\":{:?}}}", js(&format!("{:?}", e)))); } }
         if d != c.to_string() { pdfdoc_n += 1; if pdfdoc_bad.len() < 3 { pdfdoc_bad.push(format!("{{\"byte\":{b},\"fn\":\"decode\",\"want\":{},\"got\":{}}}", js(&c.to_string()), js(&d))); } }
     }
+    // encode_strict for StandardEncoding / PDFDocEncoding over every scalar value: a byte that Annex D assigns to a DIFFERENT
+    // character must never be returned (that is a silent replacement). The tree's known behaviour -- ASCII passes through, everything
+    // else is refused -- is counted under the known PDFDoc/Standard finding; anything else is a disagreement.
+    fn std_dec(b: u8) -> Option<u32> {
+        Some(match b {
+            0x27 => 0x2019, 0x60 => 0x2018, 0x20..=0x7E => b as u32,
+            0xA1 => 0xA1, 0xA2 => 0xA2, 0xA3 => 0xA3, 0xA4 => 0x2044, 0xA5 => 0xA5, 0xA6 => 0x192, 0xA7 => 0xA7, 0xA8 => 0xA4, 0xA9 => 0x27, 0xAA => 0x201C, 0xAB => 0xAB,
+            0xAC => 0x2039, 0xAD => 0x203A, 0xAE => 0xFB01, 0xAF => 0xFB02, 0xB1 => 0x2013, 0xB2 => 0x2020, 0xB3 => 0x2021, 0xB4 => 0xB7, 0xB6 => 0xB6, 0xB7 => 0x2022,
+            0xB8 => 0x201A, 0xB9 => 0x201E, 0xBA => 0x201D, 0xBB => 0xBB, 0xBC => 0x2026, 0xBD => 0x2030, 0xBF => 0xBF, 0xC1 => 0x60, 0xC2 => 0xB4, 0xC3 => 0x2C6,
+            0xC4 => 0x2DC, 0xC5 => 0xAF, 0xC6 => 0x2D8, 0xC7 => 0x2D9, 0xC8 => 0xA8, 0xCA => 0x2DA, 0xCB => 0xB8, 0xCD => 0x2DD, 0xCE => 0x2DB, 0xCF => 0x2C7, 0xD0 => 0x2014,
+            0xE1 => 0xC6, 0xE3 => 0xAA, 0xE8 => 0x141, 0xE9 => 0xD8, 0xEA => 0x152, 0xEB => 0xBA, 0xF1 => 0xE6, 0xF5 => 0x131, 0xF8 => 0x142, 0xF9 => 0xF8, 0xFA => 0x153, 0xFB => 0xDF,
+            _ => return None,
+        })
+    }
+    let pdfdoc_dec = |b: u8| -> Option<u32> { match b { 0x20..=0x7E => Some(b as u32), 0xAD => None, 0xA1..=0xFF => Some(b as u32), _ => pdfdoc.iter().find(|x| x.0 == b).map(|x| x.1) } };
+    for (enc, name) in [(TextEncoding::StandardEncoding, "Standard"), (TextEncoding::PdfDocEncoding, "PDFDoc")] {
+        for cp in 0u32..=0x10FFFF {
+            let Some(c) = char::from_u32(cp) else { continue };
+            evaluated += 1;
+            let dec = |b: u8| if name == "Standard" { std_dec(b) } else { pdfdoc_dec(b) };
+            match enc.encode_strict(&c.to_string()) {
+                Ok(v) if v.len() == 1 => {
+                    let b = v[0];
+                    if dec(b) == Some(cp) { continue; }
+                    if cp < 0x80 && b as u32 == cp { pdfdoc_n += 1; continue; }      // known: ASCII pass-through (e.g. Standard 0x27 is quoteright)
+                    if bad.len() < 8 { bad.push(format!("{{\"enc\":\"{name}\",\"char\":{cp},\"fn\":\"encode_strict\",\"returned_byte\":{b},\"annex_d_character_of_that_byte\":{}}}", js(&format!("{:?}", dec(b).and_then(char::from_u32))))); } else { bad.push(String::new()); }
+                }
+                Ok(v) => { if bad.len() < 8 { bad.push(format!("{{\"enc\":\"{name}\",\"char\":{cp},\"fn\":\"encode_strict\",\"returned\":{:?}}}", v)); } else { bad.push(String::new()); } }
+                Err(_) => { if (0u16..=255).any(|b| dec(b as u8) == Some(cp)) { pdfdoc_n += 1; } }   // known: non-ASCII refused although Annex D has a code
+            }
+        }
+    }
+    // mutual inverse on the repertoire: whatever encode_strict accepts must decode back to the same character, and no two
+    // characters may share a code
+    for (enc, name) in [(TextEncoding::WinAnsiEncoding, "WinAnsi"), (TextEncoding::MacRomanEncoding, "MacRoman")] {
+        let mut owner: [Option<u32>; 256] = [None; 256];
+        for cp in 0u32..=0x10FFFF {
+            let Some(c) = char::from_u32(cp) else { continue };
+            if let Ok(v) = enc.encode_strict(&c.to_string()) {
+                evaluated += 1;
+                if v.len() != 1 { continue; }
+                let b = v[0];
+                let back = enc.decode(&[b]);
+                if back != c.to_string() && annexd_free(name, cp) == false { if bad.len() < 8 { bad.push(format!("{{\"enc\":\"{name}\",\"char\":{cp},\"encodes_to\":{b},\"which_decodes_to\":{}}}", js(&back))); } else { bad.push(String::new()); } }
+                if let Some(o) = owner[b as usize] { if o != cp { if bad.len() < 8 { bad.push(format!("{{\"enc\":\"{name}\",\"byte\":{b},\"shared_by_characters\":[{o},{cp}]}}")); } else { bad.push(String::new()); } } }
+                owner[b as usize] = Some(cp);
+            }
+        }
+    }
+    let nbad_total = bad.len(); bad.retain(|b| !b.is_empty());
+    let _ = nbad_total;
     println!("{{\"cmd\":\"enc-tables\",\"evaluated\":{},\"disagreements\":[{}],\"silent_replacement_count\":{},\"silent_replacement_examples\":[{}],\"pdfdoc_disagreement_count\":{},\"pdfdoc_examples\":[{}]}}", evaluated, bad.join(","), silent_n, known.join(","), pdfdoc_n, pdfdoc_bad.join(","));
 }
 
